@@ -306,7 +306,7 @@ def gate_rule(chk, prog, roles, rule="GATE"):
         dom = GateDomain(prog, roles, em, cand[0])
         Flow(dom).function(prog, f, "unchecked")
         bad = {id(c): t for c, t in dom.viol}
-        for c in dom.stores:
+        for c in {id(x): x for x in dom.stores}.values():
             n += 1
             chk.require(id(c) not in bad, rule, "%s/%s/%s" % (rule, em, callee_name(c)), loc_str(c),
                         "in %s the buffer write by %s() is dominated by a passed room check on the unchanged position" % (em, callee_name(c)),
